@@ -547,6 +547,27 @@ func c02History(c *fw.Ctx, idx int) {
 				if len(cur.m.Members) > 0 && r.Bool() {
 					l = cur.m.Members[0].CollectionLayout()
 				}
+				if r.Chance(1, 5) || (cur.m.Fixed && r.Chance(1, 3)) {
+					// NoLayout lifts the restriction again: it always succeeds, and parts
+					// of any layout can be pushed afterwards
+					hist = append(hist, fmt.Sprintf("%s.SetLayout(NoLayout)", name))
+					setIn()
+					var err error
+					if c.Guard("panic", func() { err = gc.SetLayout(geom.NoLayout) }) {
+						return
+					}
+					c.Count("op_setlayout_nolayout")
+					if err != nil {
+						c.Fail("setlayout-error", "SetLayout(NoLayout) failed: %v", err)
+						return
+					}
+					cur.m.Fixed = false
+					cur.m.Layout = geom.NoLayout
+					if !cur.sweep(c, "after "+hist[len(hist)-1]) {
+						return
+					}
+					continue
+				}
 				hist = append(hist, fmt.Sprintf("%s.SetLayout(%s)", name, l))
 				setIn()
 				agree := true
